@@ -79,6 +79,19 @@ CHECKS = {
             "stub; (B) every grammar type at every position/context is rendered by the real pipeline and the stub text is evaluated with only "
             "the names the stub provides; the evaluated annotation must equal the type structurally. Bounded trees are exhausted.",
             TRUST + "The stub evaluator harness/stubeval.py is part of the trusted oracle. Same-named classes from two modules are outside the claim.", "DESIGN.md#C11"),
+    "C12": (True, "model_checking",
+            "symbolic execution of render_signature with max_line_len an unconstrained solver integer, and of build_module_stubs_from_traces over solver-chosen traced subsets (CrossHair+z3); ast round-trip oracle",
+            "Signatures valid by construction are rendered with a symbolic line width (every width, both wrapping branches) and parsed back: "
+            "names, kinds, order, separators and default presence must equal the signature. Every non-empty subset of the fixture module's "
+            "functions (all kinds, nested classes) is traced and the rendered module stub must parse and contain exactly those functions, in "
+            "their classes, with matching decorators/async and real signatures; the receiver is never annotated.",
+            TRUST + "Signature shapes are bounded per tier (per-kind counts).", "DESIGN.md#C12"),
+    "C13": (True, "model_checking",
+            "symbolic execution of get_updated_definition/update_signature_* over strategy x function x traced-subset x trace-shape decisions (CrossHair+z3); per-position table oracle",
+            "The full decision matrix strategy x annotated-in-source x traced x None-default x receiver x return/yield shape is explored over "
+            "partially annotated fixture functions; the rendered stub is evaluated and compared position by position with the table written "
+            "from the property text. Bounded tree exhausted.",
+            TRUST + "Finite selectors: exhausting the path tree equals complete enumeration of the bounded matrix (stated in the evidence rule).", "DESIGN.md#C13"),
 }
 
 NOT_APPLICABLE = {
